@@ -135,6 +135,15 @@ def run(ctx):
                 outv = noref(b.val(c.args[-1]))
                 apps = [a for a in b.calls_to('Out::append')
                         if noref(b.val(a.args[0])) == V('arg', OUT_ARG[h]) and noref(b.val(a.args[1])) == outv]
+                # ... or moved over as a whole: `o.0.extend(inner_out)` / `o.0.append(&mut inner_out.0)`
+                for a in b.calls_to('Extend::extend', 'Vec::extend', 'Vec::append'):
+                    if len(a.args) < 2:
+                        continue
+                    dstv = noref(b.trace(b.val(a.args[0]), ('DerefMut::deref_mut',)))
+                    srcv = noref(b.trace(b.val(a.args[1]), ('IntoIterator::into_iter', 'DerefMut::deref_mut')))
+                    if dstv.kind == 'arg' and dstv.key == OUT_ARG[h] and dstv.fields() == ('.0',) and \
+                            V(srcv.kind, srcv.key) == V(outv.kind, outv.key) and srcv.fields() in ((), ('.0',)):
+                        apps.append(a)
                 r = b.reach([c.target], cut_blocks=[a.bb for a in apps])
                 ctx.check(bool(apps) and not any(x in r for x in b.returns), 'C15-R2', tag + ':append', b,
                           good='the wrapped actor\'s commands are appended to the outer Out on every path',
